@@ -139,3 +139,89 @@ Theorem C09_mjd_microsecond_bound_partial :
   (Z.abs (micro - us) <= 1)%Z.
 Proof. exact mjd_us_within_one. Qed.
 Print Assumptions C09_mjd_microsecond_bound_partial.
+
+(* ------------------------------------------------------------------------------------------
+   Second batch: the str-based variants, the unsigned inverse, and the agreement between the
+   signed / unsigned / two's-complement / bit-string readings of the same bytes. *)
+From DS Require Import Model.UtilsStr Proofs.UtilsStrProofs.
+Open Scope Z_scope.
+
+(* the str-based decoders agree with the bytes-based ones on every latin-1 string (any length) *)
+Theorem C09_str_variants_agree : forall s le, bytes s ->
+  string_to_int s le = Some (bytes_to_int s le) /\
+  string_to_uint s le = bytes_to_uint s le /\
+  string_to_binary s le = Some (bytes_to_binary s le).
+Proof. exact str_variants_agree. Qed.
+Print Assumptions C09_str_variants_agree.
+
+(* ... and a string with a code point outside 0..255 is refused, never truncated *)
+Theorem C09_str_variants_refuse_wide : forall s le, ~ bytes s ->
+  string_to_int s le = None /\ string_to_uint s le = None /\ string_to_binary s le = None.
+Proof. exact str_variants_refuse_wide. Qed.
+Print Assumptions C09_str_variants_refuse_wide.
+
+(* the str-based encoders return the bytes-based result, byte for byte (refusals included) *)
+Theorem C09_to_string_variants_agree : forall v n le s,
+  int_to_string v n le = int_to_bytes v n le /\
+  uint_to_string v n le = uint_to_bytes v n le /\
+  binary_to_string s le = binary_to_bytes s le.
+Proof. exact to_string_variants_agree. Qed.
+Print Assumptions C09_to_string_variants_agree.
+
+Theorem C09_int_string_roundtrip : forall v n le s, (0 < n)%nat ->
+  int_to_string v n le = Some s -> string_to_int s le = Some v.
+Proof. exact int_string_roundtrip. Qed.
+Print Assumptions C09_int_string_roundtrip.
+
+Theorem C09_uint_string_roundtrip : forall v n le s, (0 < n)%nat ->
+  uint_to_string v n le = Some s -> string_to_uint s le = Some v.
+Proof. exact uint_string_roundtrip. Qed.
+Print Assumptions C09_uint_string_roundtrip.
+
+(* unsigned integers: encode(decode(b)) = b, every width, both endiannesses *)
+Theorem C09_uint_encode_decode : forall l le v, bytes l -> l <> [] ->
+  bytes_to_uint l le = Some v -> uint_to_bytes v (length l) le = Some l.
+Proof. exact bytes_uint_roundtrip. Qed.
+Print Assumptions C09_uint_encode_decode.
+
+(* the bit string of a byte string denotes its base-256 value; bytes_to_uint is the unsigned
+   reading and bytes_to_int its two's-complement reinterpretation on 8*len bits *)
+Theorem C09_binary_value : forall l le, bytes l ->
+  int2 (bytes_to_binary l le) = if le then Base.Bits.le_dec l else Base.Bits.be_dec l.
+Proof. exact int2_bytes_to_binary. Qed.
+Print Assumptions C09_binary_value.
+
+Theorem C09_int_uint_agree : forall l le u, bytes l -> l <> [] -> bytes_to_uint l le = Some u ->
+  bytes_to_int l le = to_signed (8 * Z.of_nat (length l)) u /\ 0 <= u < 2 ^ (8 * Z.of_nat (length l)).
+Proof. exact int_uint_agree. Qed.
+Print Assumptions C09_int_uint_agree.
+
+(* the two's complement string of v cut into bytes is exactly int_to_bytes v *)
+Theorem C09_twos_bytes_agree : forall v n le s, (0 < n)%nat ->
+  int_to_twos v n = Some s -> int_to_bytes v n le = Some (binary_to_bytes s le).
+Proof. exact twos_bytes_agree. Qed.
+Print Assumptions C09_twos_bytes_agree.
+
+(* time of day: the microsecond count is in range and determines the four fields; the
+   millisecond count is the nearest integer to us/1000 and CAN reach 86400000 (23:59:59.9995) *)
+Theorem C09_day_microseconds_range : forall h mi s us, time_ok h mi s us ->
+  0 <= day_microseconds h mi s us < 86400000000.
+Proof. exact day_microseconds_range. Qed.
+Print Assumptions C09_day_microseconds_range.
+
+Theorem C09_day_microseconds_injective : forall h mi s us h' mi' s' us',
+  time_ok h mi s us -> time_ok h' mi' s' us' ->
+  day_microseconds h mi s us = day_microseconds h' mi' s' us' ->
+  h = h' /\ mi = mi' /\ s = s' /\ us = us'.
+Proof. exact day_microseconds_inj. Qed.
+Print Assumptions C09_day_microseconds_injective.
+
+Theorem C09_day_milliseconds_nearest : forall h mi s us, time_ok h mi s us ->
+  let m := day_milliseconds h mi s us in
+  Z.abs (1000 * m - day_microseconds h mi s us) <= 500 /\ 0 <= m <= 86400000.
+Proof. exact day_milliseconds_nearest. Qed.
+Print Assumptions C09_day_milliseconds_nearest.
+
+Example C09_ex_str : string_to_int [254; 255] true = Some (-2) /\ string_to_int [254; 256] true = None
+  /\ uint_to_string 657 4 false = Some [0; 0; 2; 145] /\ time_ok 23 59 59 999500.
+Proof. repeat split; unfold time_ok; lia. Qed.
